@@ -1135,21 +1135,23 @@ func (app *App) init() *App {
 // the app, which if not set is the DefaultErrorHandler.
 func (app *App) ErrorHandler(ctx Ctx, err error) error {
 	var (
-		mountedErrHandler  ErrorHandler
-		mountedPrefixParts int
+		mountedErrHandler ErrorHandler
+		mountedPrefixLen  int
 	)
 
+	// Use the handler of the innermost mounted app that configured one and whose mount prefix
+	// contains the path on a segment boundary. All such prefixes are prefixes of each other,
+	// so the longest one is the innermost and the choice does not depend on the map order.
+	path := ctx.Path()
 	for prefix, subApp := range app.mountFields.appList {
-		if prefix != "" && strings.HasPrefix(ctx.Path(), prefix) {
-			parts := len(strings.Split(prefix, "/"))
-			if mountedPrefixParts <= parts {
-				if subApp.configured.ErrorHandler != nil {
-					mountedErrHandler = subApp.config.ErrorHandler
-				}
-
-				mountedPrefixParts = parts
-			}
+		if prefix == "" || subApp.configured.ErrorHandler == nil || len(prefix) <= mountedPrefixLen {
+			continue
 		}
+		if prefix != "/" && !(strings.HasPrefix(path, prefix) && (len(path) == len(prefix) || path[len(prefix)] == '/')) {
+			continue
+		}
+		mountedErrHandler = subApp.config.ErrorHandler
+		mountedPrefixLen = len(prefix)
 	}
 
 	if mountedErrHandler != nil {
